@@ -12,8 +12,14 @@ Section Types.
   Record Tolerance := mk_Tolerance { Tolerance_lower : num; Tolerance_upper : num }.
   (* geom3/plane3.rs (translator output only; the hand-written model's record is Model.Frames.plane) *)
   Record Plane3 := mk_Plane3 { Plane3_normal : (num * num * num)%type; Plane3_d : num }.
+  (* geom2/circle2.rs (translator output only; the model's records are Model.Circle.circ / arc); the cached bounding box is not modelled *)
+  Record Ball := mk_Ball { Ball_radius : num }.
+  Record Circle2 := mk_Circle2 { Circle2_center : (num * num)%type; Circle2_ball : Ball; Circle2_aabb : unit }.
+  Record Arc2 := mk_Arc2 { Arc2_circle : Circle2; Arc2_angle0 : num; Arc2_angle : num; Arc2_aabb : unit }.
 End Types.
 (* field lists, compared with the ones the translator reads from the Rust source *)
+Definition fields_Circle2 := ("center" :: "ball" :: "aabb" :: nil)%list.
+Definition fields_Arc2 := ("circle" :: "angle0" :: "angle" :: "aabb" :: nil)%list.
 Definition fields_Plane3 := ("normal" :: "d" :: nil)%list.
 Definition fields_Interval := ("min" :: "max" :: nil)%list.
 Definition fields_AngleInterval := ("start" :: "angle" :: nil)%list.
